@@ -51,6 +51,9 @@ type SeqName struct {
 	// listed before the priority-1 record in DEscending priority order (the
 	// resolver has to order them; the cached RRset must not be reordered in place).
 	NSvc int `json:"nsvc,omitempty"`
+	// OddSvc: one more ServiceMode record, with no-default-alpn and without alpn
+	// (RFC 9460 7.1.1 calls that malformed; a zone may hold it all the same)
+	OddSvc bool `json:"odd_svc,omitempty"`
 	// Port (shape "https", sequential histories): the name is resolved as
 	// host:port, so its HTTPS records live at _port._https.host - a name that
 	// vanishes altogether (NXDOMAIN) when the records are withdrawn.
@@ -132,6 +135,10 @@ func buildZone(names []SeqName, st []nameState, fault string) *simdoh.Zone {
 			}
 			z.RRs = append(z.RRs, simdoh.RR{Name: n.httpsOwner(), Type: simdoh.TypeHTTPS, TTL: ttl(), Target: tgt,
 				Svc: &simdoh.Svc{Priority: 1, ALPN: []string{"h3", "h2", "v" + fmt.Sprint(ver)}, ECH: []byte{0xEC, byte(ver >> 8), byte(ver), byte(i)}}})
+			if n.OddSvc && n.Shape != "nodata" {
+				z.RRs = append(z.RRs, simdoh.RR{Name: n.httpsOwner(), Type: simdoh.TypeHTTPS, TTL: ttl(), Target: tgt,
+					Svc: &simdoh.Svc{Priority: 9, NoDefaultALPN: true, Port: uint16(9000 + ver%100)}})
+			}
 		case "alias":
 			z.RRs = append(z.RRs, simdoh.RR{Name: n.Host, Type: simdoh.TypeHTTPS, TTL: ttl(), Target: names[n.Other].Host, Svc: &simdoh.Svc{}})
 		}
@@ -630,6 +637,11 @@ func genC16(seed uint64, idx int) *Plan {
 		p.HTTPCache = 1 + r.Uint64()>>1
 	}
 	p.NegSOA = idx%8 == 4
+	if idx%16 == 14 || idx%16 == 8 {
+		for i := range p.Names {
+			p.Names[i].OddSvc = true
+		}
+	}
 	if idx%16 == 2 || idx%16 == 10 {
 		p.Glue = core.Pick(r, []uint32{1, 1, 5, 30})
 	}
